@@ -104,7 +104,8 @@ class MUnit(vcgen.Unit):
             if a in st.arrs and src is not None:
                 ev.extents[a] = self.se.term(src, st, init=self.init)
         ev.unchecked = set(getattr(ev, "unchecked", ())) | set(self.c.unchecked)
-        for name, (ety, ext_src) in self.buffers.items():
+        for name, bspec in self.buffers.items():
+            ety, ext_src = bspec[0], bspec[1]
             key = "%s@g0" % name
             ev.elem[key] = ety
             ev.writable[key] = True
@@ -114,7 +115,7 @@ class MUnit(vcgen.Unit):
         self.init = st.fork()
         return st
 
-    def realloc(self, name, st):
+    def realloc(self, name, st, pre=None):
         """the buffer behind member `name` is reallocated: contents of the old extent are preserved, every
         pointer obtained earlier dangles"""
         ev = self.ev
@@ -126,14 +127,17 @@ class MUnit(vcgen.Unit):
         ev.writable[key] = True
         new = ev.fresh(key, ev.arr_sort(key))
         q = z3.Int("q?realloc")
+        bspec = self.buffers[name]
         oldext = ev.extents.get(oldkey)
+        if len(bspec) > 2:
+            # only this many leading elements are copied into the new allocation
+            oldext = self.se.term(bspec[2], pre if pre is not None else st, init=self.init)
         if oldext is not None:
             st.assume(z3.ForAll([q], z3.Implies(z3.And(0 <= q, q < oldext), z3.Select(new, q) == z3.Select(st.arrs[oldkey], q))))
         st.arrs[key] = new
         del st.arrs[oldkey]
         st.vars[name] = Val(IV(0), "ptr", key)
-        ety, ext_src = self.buffers[name]
-        ev.extents[key] = self.se.term(ext_src, st, init=self.init)
+        ev.extents[key] = self.se.term(bspec[1], st, init=self.init)
 
     # ---- extra expression kinds
     def ev_enum(self, e, st):
@@ -214,6 +218,15 @@ class MUnit(vcgen.Unit):
                 return self.apply_contract(cc, e, st)
             self.external_effects(args, st)
             return self.opaque_value(ty, st, "ret_" + name[5:])
+        if name == "handle_error":
+            # util::handle_error(failure(...), ...) throws: the path ends here (exit kind "throw")
+            self.exits.append(("throw", "throw", st.fork()))
+            self.ret_states.append((["throw"], st.fork()))
+            for src in self.on_exit.get("throw", []):
+                self.ev.loc_label = "exit:throw"
+                self.ev.oblige("F.exit", self.se.boolean(src, st, init=self.init), st, "at throw: %s" % src, {"src": src})
+            st.assume(z3.BoolVal(False))
+            return Val(IV(0), "opaque")
         if name in ("abs", "labs", "llabs") and len(args) == 1:
             v = to_int(self.ev.ev(args[0], st))
             return Val(z3.If(v >= 0, v, -v), "int")
@@ -289,7 +302,7 @@ class MUnit(vcgen.Unit):
             st.assume(self.se.boolean(src, st, init=self.init, entry=pre, bound=bound))
         for name in cc.get("realloc", []):
             if name in self.buffers:
-                self.realloc(name, st)
+                self.realloc(name, st, pre)
         return res
 
     # ---- statements beyond the kernel subset
